@@ -2,6 +2,7 @@
 options.
 """
 
+import codecs
 import os
 import typing
 import typing as t
@@ -1609,7 +1610,17 @@ class TemplateStream:
 
         try:
             if encoding is not None:
-                iterable = (x.encode(encoding, errors) for x in self)  # type: ignore
+                # encode incrementally so that stateful codecs (a BOM, shift
+                # sequences) see one stream instead of independent chunks
+                encoder = codecs.getincrementalencoder(encoding)(errors)  # type: ignore
+
+                def encoded() -> t.Iterator[bytes]:
+                    for x in self:
+                        yield encoder.encode(x)
+
+                    yield encoder.encode("", True)
+
+                iterable = encoded()  # type: ignore
             else:
                 iterable = self  # type: ignore
 
